@@ -48,6 +48,9 @@ CLAIMED = {
  "C17": ("translation_validation", "constant evaluation and cross-check of registry tables against type constants and boxed writers",
          "Cross-checks by constant evaluation, per corpus: meta registration literals ↔ factory registrations ↔ TLName()/TLTag() constants of the constructed Go type ↔ first word written by WriteTL1Boxed; function-ness ⇔ result transcoders exist; HaTL1/HaTL2 ⇔ readers are real, not stubs; names and non-zero tags pairwise distinct; every item has a factory and vice versa.",
          "programs = corpora; agreement with the schema text is not decided (schema seen only through the generator)", "DESIGN.md §3 C17"),
+ "C18": ("other", "call-graph cycle analysis with gate/bracket edge labels over generated FillRandom, pairing and who-may-call rules, decision table of basictl's generator",
+         "Decides termination structurally: every recursive component of the FillRandom call graph has an exit — either every cycle has a call switched off by a depth-limited draw (0 at the depth limit) and a depth-bracketed call (bounded by maxDepth), or it is left by fair-coin gates with at most two recursive calls per activation (terminates almost surely); cycles through unconditional calls or arm 0 of a drawn union index are violations; pointer (recursive) fields are allocated before being filled; Increase/DecreaseDepth are paired; collections are sized by their nat parameter or a RandomSize draw and masks by RandomFieldMask(constant used bits); FillRandom draws only through the generator (no time/global rand/map iteration); basictl: RandomUint is 0 at the limit, RandomSize/FieldMask derive from it with identity default handlers, IncreaseDepth saturates, maxDepth >= 2. One defect repaired, two recorded as known findings.",
+         "corpus-bounded; 'every writer accepts the value' only through C04's presence table", "DESIGN.md §3 C18"),
  "C19": ("other", "typestate-style guard rules on the token iterator + owner tables for panics and token-text slicing",
          "Decides structural necessary conditions of a total TL1 parser: every token consumption outside the iterator's methods is control-dependent on a positive non-eof front-token test on the same iterator (so eof, always appended last by the lexer, is never consumed), expectOrPanic follows checkToken of the same kind, explicit panics and token-text slicing occur only at listed sites, unbounded loops have exits, and error printing slices file content only through safeRange or under a range test. Lexer byte-level totality and the recombination invariant are value-level and not decided.",
          "clause only; trusts go/types and the listed lexer token shapes", "DESIGN.md §3 C19"),
